@@ -11,11 +11,13 @@ import (
 	"github.com/DrmagicE/gmqtt/persistence/queue"
 	"github.com/DrmagicE/gmqtt/persistence/session"
 	sessmem "github.com/DrmagicE/gmqtt/persistence/session/mem"
+	sessredis "github.com/DrmagicE/gmqtt/persistence/session/redis"
 	"github.com/DrmagicE/gmqtt/persistence/subscription"
 	submem "github.com/DrmagicE/gmqtt/persistence/subscription/mem"
 	"github.com/DrmagicE/gmqtt/persistence/unack"
 	unackmem "github.com/DrmagicE/gmqtt/persistence/unack/mem"
 	"github.com/DrmagicE/gmqtt/pkg/packets"
+	"github.com/DrmagicE/gmqtt/zzredis"
 	"github.com/DrmagicE/gmqtt/zzrt"
 )
 
@@ -99,6 +101,12 @@ func zzConnectPacket(v5 bool, id string, clean bool, expiry *uint32) *packets.Co
 // intact iff the session is alive and Clean Start is 0.
 func ZZ_C05_Resume() {
 	srv, pers := zzLifecycleServer()
+	// session store: memory, or the real redis session store over the zzredis stand-in
+	if zzrt.Choice(zzrt.Param("BACKENDS")) == 1 {
+		srv.sessionStore = sessredis.New(zzredis.NewPool(zzredis.NewStore()))
+		srv.clientService.sessionStore = srv.sessionStore
+		zzrt.Cover("redis-session-store")
+	}
 	cfgSec := zzrt.Uint32()
 	zzrt.Assume(cfgSec <= 1<<22)
 	srv.config.MQTT.SessionExpiry = time.Duration(cfgSec) * time.Second
